@@ -1,6 +1,6 @@
-(* Proofs about model/Provider.v: the invariant of the cursor cache under the client discipline,
-   preserved by every atomic step of every request and of the sweeper, for every history and
-   schedule; and what follows from it (C15). *)
+(* Proofs about model/Provider.v: the invariant of the cursor cache, preserved by every atomic step of
+   every request, of the sweeper, of the clock and of Shutdown, for every history and schedule of
+   the code as it is (`code_variant`: no hypothesis on the clients); and what follows from it (C15). *)
 From LR Require Import lib.Base model.CList model.Provider proofs.CListP.
 From Coq Require Import Permutation.
 
@@ -191,14 +191,6 @@ Proof. intros (R1 & _) E. rewrite E in R1. apply ring_none in R1. exact R1. Qed.
 (* ================= the invariant ================= *)
 Definition holds (act : list (nat * astate)) (r c : nat) : Prop :=
   act_get act r = ACreated c \/ act_get act r = AHold c.
-Definition aidc (cur : nat -> cursor) (a : astate) : option N :=
-  match a with
-  | AMiss id _ _ _ _ => Some id
-  | ACreated c | AHold c => Some (c_id (cur c))
-  | _ => None
-  end.
-Lemma aid_aidc s a : aid s a = aidc (p_cur s) a.
-Proof. reflexivity. Qed.
 
 (* the cache map and the busy ring describe the same set of holders *)
 Definition IM (curs : list (N * nat)) (vals : nat -> hldr) (cur : nat -> cursor) (ncur : nat) (lb : list nat) : Prop :=
@@ -207,18 +199,16 @@ Definition IM (curs : list (N * nat)) (vals : nat -> hldr) (cur : nat -> cursor)
                                    map_get curs (c_id (cur c)) = Some e) /\
   length curs <= length lb.
 
-(* requests: who uses which cursor, and how that shows in the cache *)
-Definition IA (act : list (nat * astate)) (curs : list (N * nat)) (vals : nat -> hldr) (cur : nat -> cursor)
+(* requests: who uses which cursor, and how that shows in the cache. Nothing is said about ids: any number
+   of requests in flight may carry the same id (the cache entry of an id belongs to one cursor, IM) *)
+Definition IA (act : list (nat * astate)) (vals : nat -> hldr) (cur : nat -> cursor)
               (ncur : nat) (lb : list nat) : Prop :=
   (forall r c, holds act r c -> c < ncur /\ c_live (cur c) = true) /\
   (forall r r' c, holds act r c -> holds act r' c -> r = r') /\
   (forall r c, act_get act r = AHold c ->
      (exists e, In e lb /\ h_cur (vals e) = Some c /\ h_busy (vals e) = true) \/
-     ((forall e, In e lb -> h_cur (vals e) <> Some c) /\ map_get curs (c_id (cur c)) = None)) /\
-  (forall r c, act_get act r = ACreated c ->
-     (forall e, In e lb -> h_cur (vals e) <> Some c) /\ map_get curs (c_id (cur c)) = None) /\
-  (forall r id q qr p ca, act_get act r = AMiss id q qr p ca -> map_get curs id = None) /\
-  (forall r r' i, r <> r' -> aidc cur (act_get act r) = Some i -> aidc cur (act_get act r') <> Some i) /\
+     (forall e, In e lb -> h_cur (vals e) <> Some c)) /\
+  (forall r c, act_get act r = ACreated c -> forall e, In e lb -> h_cur (vals e) <> Some c) /\
   (forall e c, In e lb -> h_busy (vals e) = true -> h_cur (vals e) = Some c -> exists r, act_get act r = AHold c).
 
 (* cursors: open exactly as long as a request or the cache refers to them; closed exactly once afterwards *)
@@ -235,13 +225,23 @@ Fixpoint live_sum (cur : nat -> cursor) (n : nat) (p : N) : Z :=
   end.
 (* the factory's books: what is acquired is what the open cursors hold *)
 Definition IQ (acq : N -> Z) (cur : nat -> cursor) (ncur : nat) : Prop := forall p, acq p = live_sum cur ncur p.
+Ltac sproj :=
+  unfold set_actor, set_act, touch, clear_cur, set_val, set_rs, set_vals, set_cursor, set_cur, set_curs, set_acq, set_now, set_max;
+  cbn [p_rs p_vals p_curs p_max p_idle p_busyto p_now p_cur p_ncur p_acq p_act].
+
+
+(* Everything below is proved twice at once: `mono = false` for arbitrary clock steps, `mono = true` for a
+   clock that does not go backwards; only the bound on the expiry times (IT) needs the latter *)
+Section Clock.
+Variable mono : bool.
+
 Definition IT (vals : nat -> hldr) (now idle busyto : Z) (lb : list nat) : Prop :=
-  forall e, In e lb -> (h_exp (vals e) <= now + Z.max idle busyto)%Z.
+  mono = true -> forall e, In e lb -> (h_exp (vals e) <= now + Z.max idle busyto)%Z.
 
 Definition InvL (s : prov) (lb lf : list nat) : Prop :=
   rsinv (p_rs s) lb lf /\
   IM (p_curs s) (p_vals s) (p_cur s) (p_ncur s) lb /\
-  IA (p_act s) (p_curs s) (p_vals s) (p_cur s) (p_ncur s) lb /\
+  IA (p_act s) (p_vals s) (p_cur s) (p_ncur s) lb /\
   IC (p_cur s) (p_ncur s) (p_act s) (p_vals s) lb /\
   IQ (p_acq s) (p_cur s) (p_ncur s) /\
   IT (p_vals s) (p_now s) (p_idle s) (p_busyto s) lb.
@@ -253,7 +253,7 @@ Proof.
   - destruct H as [H|H]; discriminate.
   - destruct H as [H|H]; discriminate.
   - intros r r' c [H|H]; discriminate.
-  - intros e [].
+  - intros _ e [].
 Qed.
 
 (* ================= changes the invariant does not look at ================= *)
@@ -270,9 +270,6 @@ Lemma mem_eq_refl l : mem_eq l l.
 Proof. intros x. tauto. Qed.
 Lemma cur_sim_pos cur c sp ip : cur_sim cur (fupd cur c (with_pos (cur c) sp ip)).
 Proof. intros x. unfold fupd. destruct (Nat.eqb x c) eqn:E; [apply Nat.eqb_eq in E; subst; cbn|]; repeat split. Qed.
-
-Lemma aidc_sim cur cur' a : cur_sim cur cur' -> aidc cur' a = aidc cur a.
-Proof. intros S. destruct a; cbn [aidc]; try reflexivity; rewrite (proj1 (S c)); reflexivity. Qed.
 
 Lemma IM_ext curs vals vals' cur cur' ncur lb lb' :
   vals_cur_eq vals vals' -> cur_sim cur cur' -> mem_eq lb lb' -> length lb' = length lb ->
@@ -304,26 +301,24 @@ Qed.
 Lemma IQ_ext acq cur cur' ncur : cur_sim cur cur' -> IQ acq cur ncur -> IQ acq cur' ncur.
 Proof. intros S Q p. rewrite (live_sum_ext cur cur' ncur p S). apply Q. Qed.
 
-Lemma IA_ext act curs vals vals' cur cur' ncur lb lb' :
+Lemma IA_ext act vals vals' cur cur' ncur lb lb' :
   vals_cb_eq vals vals' -> cur_sim cur cur' -> mem_eq lb lb' ->
-  IA act curs vals cur ncur lb -> IA act curs vals' cur' ncur lb'.
+  IA act vals cur ncur lb -> IA act vals' cur' ncur lb'.
 Proof.
-  intros V S M (A1 & A2 & A3 & A4 & A5 & A6 & A7).
-  refine (conj _ (conj _ (conj _ (conj _ (conj _ (conj _ _)))))).
+  intros V S M (A1 & A2 & A3 & A4 & A7).
+  refine (conj _ (conj _ (conj _ (conj _ _)))).
   - intros r c H. destruct (S c) as (_ & S2 & _). rewrite S2. apply (A1 r c H).
   - exact A2.
-  - intros r c H. destruct (A3 r c H) as [(e & I & Hc & Hb)|(Hn & Hm)].
+  - intros r c H. destruct (A3 r c H) as [(e & I & Hc & Hb)|Hn].
     + left. exists e. destruct (V e) as [V1 V2]. rewrite V1, V2. split; [apply M; exact I|auto].
-    + right. split; [intros e I; rewrite (proj1 (V e)); apply Hn; apply M; exact I|rewrite (proj1 (S c)); exact Hm].
-  - intros r c H. destruct (A4 r c H) as (Hn & Hm).
-    split; [intros e I; rewrite (proj1 (V e)); apply Hn; apply M; exact I|rewrite (proj1 (S c)); exact Hm].
-  - exact A5.
-  - intros r r' i N H. rewrite (aidc_sim cur cur') in * by exact S. apply (A6 r r' i N H).
+    + right. intros e I; rewrite (proj1 (V e)); apply Hn; apply M; exact I.
+  - intros r c H. pose proof (A4 r c H) as Hn.
+    intros e I; rewrite (proj1 (V e)); apply Hn; apply M; exact I.
   - intros e c I Hb Hc. destruct (V e) as [V1 V2]. rewrite V1 in Hc. rewrite V2 in Hb. apply M in I. apply (A7 e c I Hb Hc).
 Qed.
 
 Lemma IT_ext vals now idle busyto lb lb' : mem_eq lb lb' -> IT vals now idle busyto lb -> IT vals now idle busyto lb'.
-Proof. intros M T e I. apply T. apply M. exact I. Qed.
+Proof. intros M T Hm e I. apply (T Hm). apply M. exact I. Qed.
 
 Lemma mem_eq_touch (e : nat) lb : In e lb -> mem_eq lb (e :: remove Nat.eq_dec e lb).
 Proof.
@@ -336,21 +331,7 @@ Lemma holds_set act r a r0 c : holds (act_set act r a) r0 c <->
   if Nat.eqb r0 r then (a = ACreated c \/ a = AHold c) else holds act r0 c.
 Proof. unfold holds. rewrite act_get_set. destruct (Nat.eqb r0 r); tauto. Qed.
 
-(* ================= the discipline, read off the actor table ================= *)
-Lemma inflight_sound cur l i :
-  existsb (N.eqb i) (flat_map (fun ra : nat * astate => match aidc cur (snd ra) with Some j => [j] | None => [] end) l) = false ->
-  forall r, aidc cur (act_get l r) <> Some i.
-Proof.
-  induction l as [|[r0 a] l IH]; cbn [flat_map act_get snd]; intros H r.
-  - cbn. discriminate.
-  - rewrite existsb_app in H. apply orb_false_iff in H. destruct H as [H1 H2].
-    destruct (Nat.eqb r0 r); [|apply IH; exact H2].
-    intros E. rewrite E in H1. cbn in H1. rewrite N.eqb_refl in H1. discriminate.
-Qed.
-
-Lemma not_inflight s i : mem_N i (inflight s) = false -> forall r, aidc (p_cur s) (act_get (p_act s) r) <> Some i.
-Proof. unfold mem_N, inflight. intros H. apply (inflight_sound (p_cur s) (p_act s) i). exact H. Qed.
-
+(* ================= requests that hold no cursor ================= *)
 Definition nonhold (a : astate) : Prop := match a with ACreated _ | AHold _ => False | _ => True end.
 
 Lemma holds_nonhold act r r0 c : nonhold (act_get act r) -> holds act r0 c -> r0 <> r.
@@ -371,13 +352,11 @@ Proof.
   pose proof (holds_nonhold _ _ _ _ N H) as Ne. apply Nat.eqb_neq in Ne. rewrite Ne. exact H.
 Qed.
 
-Lemma IA_nonhold act curs vals cur ncur lb r a :
+Lemma IA_nonhold act vals cur ncur lb r a :
   nonhold (act_get act r) -> nonhold a ->
-  (forall id q qr p ca, a = AMiss id q qr p ca ->
-     map_get curs id = None /\ forall r', r' <> r -> aidc cur (act_get act r') <> Some id) ->
-  IA act curs vals cur ncur lb -> IA (act_set act r a) curs vals cur ncur lb.
+  IA act vals cur ncur lb -> IA (act_set act r a) vals cur ncur lb.
 Proof.
-  intros N Na Hm (A1 & A2 & A3 & A4 & A5 & A6 & A7).
+  intros N Na (A1 & A2 & A3 & A4 & A7).
   assert (Hh : forall r0 c, holds (act_set act r a) r0 c -> holds act r0 c /\ r0 <> r).
   { intros r0 c H. apply holds_set in H. destruct (Nat.eqb r0 r) eqn:E.
     - destruct H as [-> | ->]; destruct Na.
@@ -385,34 +364,22 @@ Proof.
   assert (Ha : forall r0, r0 <> r -> act_get (act_set act r a) r0 = act_get act r0).
   { intros r0 Ne. rewrite act_get_set. apply Nat.eqb_neq in Ne. rewrite Ne. reflexivity. }
   assert (Hr : act_get (act_set act r a) r = a) by (rewrite act_get_set, Nat.eqb_refl; reflexivity).
-  refine (conj _ (conj _ (conj _ (conj _ (conj _ (conj _ _)))))).
+  refine (conj _ (conj _ (conj _ (conj _ _)))).
   - intros r0 c H. apply Hh in H. apply (A1 r0 c (proj1 H)).
   - intros r0 r1 c H0 H1. apply Hh in H0. apply Hh in H1. apply (A2 r0 r1 c (proj1 H0) (proj1 H1)).
   - intros r0 c H. destruct (Nat.eq_dec r0 r) as [->|Ne]; [rewrite Hr in H; subst a; destruct Na|].
     rewrite Ha in H by exact Ne. apply (A3 r0 c H).
   - intros r0 c H. destruct (Nat.eq_dec r0 r) as [->|Ne]; [rewrite Hr in H; subst a; destruct Na|].
     rewrite Ha in H by exact Ne. apply (A4 r0 c H).
-  - intros r0 id q qr p ca H. destruct (Nat.eq_dec r0 r) as [->|Ne].
-    + rewrite Hr in H. apply (proj1 (Hm _ _ _ _ _ H)).
-    + rewrite Ha in H by exact Ne. apply (A5 r0 id q qr p ca H).
-  - intros r0 r1 i Ne H0 H1. destruct (Nat.eq_dec r0 r) as [->|N0]; destruct (Nat.eq_dec r1 r) as [->|N1].
-    + apply Ne. reflexivity.
-    + rewrite Hr in H0. rewrite Ha in H1 by exact N1. destruct a; cbn [aidc] in H0; try discriminate; try destruct Na.
-      injection H0 as ->. destruct (Hm _ _ _ _ _ eq_refl) as [_ Hm2]. apply (Hm2 r1 N1 H1).
-    + rewrite Hr in H1. rewrite Ha in H0 by exact N0. destruct a; cbn [aidc] in H1; try discriminate; try destruct Na.
-      injection H1 as ->. destruct (Hm _ _ _ _ _ eq_refl) as [_ Hm2]. apply (Hm2 r0 N0 H0).
-    + rewrite Ha in H0 by exact N0. rewrite Ha in H1 by exact N1. apply (A6 r0 r1 i Ne H0 H1).
   - intros e c I Hb Hc. destruct (A7 e c I Hb Hc) as [r0 H]. exists r0. rewrite Ha; [exact H|].
     intros ->. rewrite H in N. exact N.
 Qed.
 
 Lemma InvL_nonhold s lb lf r a :
   nonhold (act_get (p_act s) r) -> nonhold a ->
-  (forall id q qr p ca, a = AMiss id q qr p ca ->
-     map_get (p_curs s) id = None /\ forall r', r' <> r -> aidc (p_cur s) (act_get (p_act s) r') <> Some id) ->
   InvL s lb lf -> InvL (set_actor s r a) lb lf.
 Proof.
-  intros N Na Hm (R & M & A & C & Q & T). unfold InvL, set_actor, set_act; cbn.
+  intros N Na (R & M & A & C & Q & T). unfold InvL, set_actor, set_act; cbn.
   split; [exact R|]. split; [exact M|]. split; [apply IA_nonhold; assumption|].
   split; [apply IC_nonhold; assumption|]. split; assumption.
 Qed.
@@ -436,18 +403,17 @@ Proof.
 Qed.
 
 Lemma IA_grab act curs vals cur ncur lb r e c v :
-  IA act curs vals cur ncur lb -> IM curs vals cur ncur lb ->
+  IA act vals cur ncur lb -> IM curs vals cur ncur lb ->
   nonhold (act_get act r) -> In e lb -> h_cur (vals e) = Some c -> h_busy (vals e) = false ->
-  (forall r', aidc cur (act_get act r') <> Some (c_id (cur c))) ->
   h_cur v = Some c -> h_busy v = true ->
-  IA (act_set act r (AHold c)) curs (fupd vals e v) cur ncur lb.
+  IA (act_set act r (AHold c)) (fupd vals e v) cur ncur lb.
 Proof.
-  intros (A1 & A2 & A3 & A4 & A5 & A6 & A7) M N I Hc Hb G Vc Vb.
+  intros (A1 & A2 & A3 & A4 & A7) M N I Hc Hb Vc Vb.
   assert (V : vals_cur_eq vals (fupd vals e v)) by (apply vals_cur_eq_fupd; congruence).
   assert (NoH : forall r0, ~ holds act r0 c).
   { intros r0 [H|H].
-    - destruct (A4 r0 c H) as [Hn _]. apply (Hn e I Hc).
-    - destruct (A3 r0 c H) as [(e0 & I0 & Hc0 & Hb0)|[Hn _]]; [|apply (Hn e I Hc)].
+    - apply (A4 r0 c H e I Hc).
+    - destruct (A3 r0 c H) as [(e0 & I0 & Hc0 & Hb0)|Hn]; [|apply (Hn e I Hc)].
       rewrite (IM_inj _ _ _ _ _ _ _ _ M I0 I Hc0 Hc) in Hb0. congruence. }
   assert (Ha : forall r0, r0 <> r -> act_get (act_set act r (AHold c)) r0 = act_get act r0).
   { intros r0 Ne. rewrite act_get_set. apply Nat.eqb_neq in Ne. rewrite Ne. reflexivity. }
@@ -457,7 +423,7 @@ Proof.
     - apply Nat.eqb_eq in E. left. destruct H as [H|H]; [discriminate|injection H as ->; auto].
     - apply Nat.eqb_neq in E. auto. }
   destruct M as (M1 & M2 & M3).
-  refine (conj _ (conj _ (conj _ (conj _ (conj _ (conj _ _)))))).
+  refine (conj _ (conj _ (conj _ (conj _ _)))).
   - intros r0 c0 H. destruct (Hh _ _ H) as [[-> ->]|[_ H']]; [|apply (A1 r0 c0 H')].
     destruct (M2 e I) as (c1 & H1 & Hn & Hl & _). rewrite Hc in H1. injection H1 as <-. auto.
   - intros r0 r1 c0 H0 H1. destruct (Hh _ _ H0) as [[-> ->]|[N0 H0']]; destruct (Hh _ _ H1) as [[-> E1]|[N1 H1']].
@@ -467,18 +433,11 @@ Proof.
     + apply (A2 r0 r1 c0 H0' H1').
   - intros r0 c0 H. destruct (Nat.eq_dec r0 r) as [->|Ne].
     + rewrite Hr in H. injection H as <-. left. exists e. rewrite V, fupd_same. auto.
-    + rewrite Ha in H by exact Ne. destruct (A3 r0 c0 H) as [(e0 & I0 & Hc0 & Hb0)|[Hn Hm]].
+    + rewrite Ha in H by exact Ne. destruct (A3 r0 c0 H) as [(e0 & I0 & Hc0 & Hb0)|Hn].
       * left. exists e0. assert (e0 <> e) by (intros ->; congruence). rewrite fupd_other by assumption. auto.
-      * right. split; [intros e0 I0; rewrite V; apply Hn; exact I0|exact Hm].
+      * right. intros e0 I0; rewrite V; apply Hn; exact I0.
   - intros r0 c0 H. destruct (Nat.eq_dec r0 r) as [->|Ne]; [rewrite Hr in H; discriminate|].
-    rewrite Ha in H by exact Ne. destruct (A4 r0 c0 H) as [Hn Hm]. split; [intros e0 I0; rewrite V; apply Hn; exact I0|exact Hm].
-  - intros r0 id q qr p ca H. destruct (Nat.eq_dec r0 r) as [->|Ne]; [rewrite Hr in H; discriminate|].
-    rewrite Ha in H by exact Ne. apply (A5 r0 id q qr p ca H).
-  - intros r0 r1 i Ne H0 H1. destruct (Nat.eq_dec r0 r) as [->|N0]; destruct (Nat.eq_dec r1 r) as [->|N1].
-    + apply Ne. reflexivity.
-    + rewrite Hr in H0. rewrite Ha in H1 by exact N1. cbn [aidc] in H0. injection H0 as <-. apply (G r1 H1).
-    + rewrite Hr in H1. rewrite Ha in H0 by exact N0. cbn [aidc] in H1. injection H1 as <-. apply (G r0 H0).
-    + rewrite Ha in H0 by exact N0. rewrite Ha in H1 by exact N1. apply (A6 r0 r1 i Ne H0 H1).
+    rewrite Ha in H by exact Ne. pose proof (A4 r0 c0 H) as Hn. intros e0 I0; rewrite V; apply Hn; exact I0.
   - intros e0 c0 I0 Hb0 Hc0. rewrite V in Hc0. destruct (Nat.eq_dec e0 e) as [->|Ne].
     + exists r. rewrite Hr. congruence.
     + rewrite fupd_other in Hb0 by exact Ne. destruct (A7 e0 c0 I0 Hb0 Hc0) as [r0 H]. exists r0. rewrite Ha; [exact H|].
@@ -486,12 +445,12 @@ Proof.
 Qed.
 
 Lemma IA_ungrab act curs vals cur ncur lb r e c v :
-  IA act curs vals cur ncur lb -> IM curs vals cur ncur lb ->
+  IA act vals cur ncur lb -> IM curs vals cur ncur lb ->
   act_get act r = AHold c -> In e lb -> h_cur (vals e) = Some c ->
   h_cur v = Some c -> h_busy v = false ->
-  IA (act_set act r AIdle) curs (fupd vals e v) cur ncur lb.
+  IA (act_set act r AIdle) (fupd vals e v) cur ncur lb.
 Proof.
-  intros (A1 & A2 & A3 & A4 & A5 & A6 & A7) M Hr0 I Hc Vc Vb.
+  intros (A1 & A2 & A3 & A4 & A7) M Hr0 I Hc Vc Vb.
   assert (V : vals_cur_eq vals (fupd vals e v)) by (apply vals_cur_eq_fupd; congruence).
   assert (Ha : forall r0, r0 <> r -> act_get (act_set act r AIdle) r0 = act_get act r0).
   { intros r0 Ne. rewrite act_get_set. apply Nat.eqb_neq in Ne. rewrite Ne. reflexivity. }
@@ -502,22 +461,17 @@ Proof.
     - apply Nat.eqb_neq in E. auto. }
   assert (Only : forall r0, r0 <> r -> ~ holds act r0 c).
   { intros r0 Ne H. apply Ne. apply (A2 r0 r c H). right. exact Hr0. }
-  refine (conj _ (conj _ (conj _ (conj _ (conj _ (conj _ _)))))).
+  refine (conj _ (conj _ (conj _ (conj _ _)))).
   - intros r0 c0 H. apply Hh in H. apply (A1 r0 c0 (proj2 H)).
   - intros r0 r1 c0 H0 H1. apply Hh in H0. apply Hh in H1. apply (A2 r0 r1 c0 (proj2 H0) (proj2 H1)).
   - intros r0 c0 H. destruct (Nat.eq_dec r0 r) as [->|Ne]; [rewrite Hr in H; discriminate|].
-    rewrite Ha in H by exact Ne. destruct (A3 r0 c0 H) as [(e0 & I0 & Hc0 & Hb0)|[Hn Hm]].
+    rewrite Ha in H by exact Ne. destruct (A3 r0 c0 H) as [(e0 & I0 & Hc0 & Hb0)|Hn].
     + left. exists e0. assert (e0 <> e).
       { intros ->. rewrite Hc in Hc0. injection Hc0 as <-. apply (Only r0 Ne). right. exact H. }
       rewrite fupd_other by assumption. auto.
-    + right. split; [intros e0 I0; rewrite V; apply Hn; exact I0|exact Hm].
+    + right. intros e0 I0; rewrite V; apply Hn; exact I0.
   - intros r0 c0 H. destruct (Nat.eq_dec r0 r) as [->|Ne]; [rewrite Hr in H; discriminate|].
-    rewrite Ha in H by exact Ne. destruct (A4 r0 c0 H) as [Hn Hm]. split; [intros e0 I0; rewrite V; apply Hn; exact I0|exact Hm].
-  - intros r0 id q qr p ca H. destruct (Nat.eq_dec r0 r) as [->|Ne]; [rewrite Hr in H; discriminate|].
-    rewrite Ha in H by exact Ne. apply (A5 r0 id q qr p ca H).
-  - intros r0 r1 i Ne H0 H1. destruct (Nat.eq_dec r0 r) as [->|N0]; [rewrite Hr in H0; discriminate|].
-    destruct (Nat.eq_dec r1 r) as [->|N1]; [rewrite Hr in H1; discriminate|].
-    rewrite Ha in H0 by exact N0. rewrite Ha in H1 by exact N1. apply (A6 r0 r1 i Ne H0 H1).
+    rewrite Ha in H by exact Ne. pose proof (A4 r0 c0 H) as Hn. intros e0 I0; rewrite V; apply Hn; exact I0.
   - intros e0 c0 I0 Hb0 Hc0. rewrite V in Hc0. destruct (Nat.eq_dec e0 e) as [->|Ne]; [rewrite fupd_same in Hb0; congruence|].
     rewrite fupd_other in Hb0 by exact Ne. destruct (A7 e0 c0 I0 Hb0 Hc0) as [r0 H]. exists r0. rewrite Ha; [exact H|].
     intros ->. rewrite H in Hr0. injection Hr0 as ->. apply Ne. apply (IM_inj _ _ _ _ _ _ _ _ M I0 I Hc0 Hc).
@@ -538,7 +492,7 @@ Qed.
 Lemma IT_fupd vals now idle busyto lb e v :
   IT vals now idle busyto lb -> (h_exp v <= now + Z.max idle busyto)%Z -> IT (fupd vals e v) now idle busyto lb.
 Proof.
-  intros T H e0 I. destruct (Nat.eq_dec e0 e) as [->|Ne]; [rewrite fupd_same; exact H|rewrite fupd_other by exact Ne; apply T; exact I].
+  intros T H Hm e0 I. destruct (Nat.eq_dec e0 e) as [->|Ne]; [rewrite fupd_same; exact H|rewrite fupd_other by exact Ne; apply (T Hm); exact I].
 Qed.
 
 (* ================= GetOrCreate: the lookup step ================= *)
@@ -557,39 +511,25 @@ Proof.
   destruct p; try discriminate. intros H; injection H as <-. cbn. repeat split.
 Qed.
 
-Ltac sproj :=
-  unfold set_actor, set_act, touch, clear_cur, set_val, set_rs, set_vals, set_cursor, set_cur, set_curs, set_acq, set_now;
-  cbn [p_rs p_vals p_curs p_max p_idle p_busyto p_now p_cur p_ncur p_acq p_act].
-
 Definition ok_inv (o : outcome (prov * res)) : Prop := exists s' r, o = Ok (s', r) /\ Inv s'.
 
 Lemma ok_same s r : Inv s -> ok_inv (Ok (s, r)).
 Proof. intros I. exists s, r. auto. Qed.
 
 Lemma inv_lookup s r id cache q qr p fresh :
-  Inv s -> guard s (OLookup r id cache q qr p fresh) = true -> ok_inv (get_lookup s r id cache q qr p fresh).
+  Inv s -> ok_inv (get_lookup s r id cache q qr p fresh).
 Proof.
-  intros (lb & lf & HI) G. unfold get_lookup. cbn [guard] in G.
+  intros (lb & lf & HI). unfold get_lookup.
   destruct (act_get (p_act s) r) eqn:Ea; try (apply ok_same; exists lb, lf; exact HI).
-  apply andb_true_iff in G. destruct G as [G G4]. apply andb_true_iff in G. destruct G as [G G3].
-  apply andb_true_iff in G. destruct G as [G1 G2].
-  apply negb_true_iff in G3.
-  assert (Miss : forall id', map_get (p_curs s) id' = None ->
-             (forall r', aidc (p_cur s) (act_get (p_act s) r') <> Some id') ->
-             ok_inv (Ok (set_actor s r (AMiss id' q qr p cache), RMiss))).
-  { intros id' Hm Hi. eexists _, _. split; [reflexivity|]. exists lb, lf. apply InvL_nonhold; [rewrite Ea; exact I| exact I | | exact HI].
-    intros ? ? ? ? ? E. injection E as <- _ _ _ _. split; [exact Hm|]. intros r' _. apply Hi. }
-  assert (MissF : ok_inv (Ok (set_actor s r (AMiss fresh q qr p cache), RMiss))).
-  { apply Miss; [destruct (map_get (p_curs s) fresh); [discriminate|reflexivity]|apply not_inflight; exact G3]. }
-  destruct (N.eqb id 0) eqn:E0; [exact MissF|].
-  destruct (map_get (p_curs s) id) as [e|] eqn:Em.
-  2:{ apply Miss; [exact Em|]. apply not_inflight. cbn [orb] in G1. rewrite orb_false_r in G1. apply negb_true_iff in G1. exact G1. }
+  assert (Miss : forall id', ok_inv (Ok (set_actor s r (AMiss id' q qr p cache), RMiss))).
+  { intros id'. eexists _, _. split; [reflexivity|]. exists lb, lf. apply InvL_nonhold; [rewrite Ea; exact I|exact I|exact HI]. }
+  destruct (N.eqb id 0) eqn:E0; [apply Miss|].
+  destruct (map_get (p_curs s) id) as [e|] eqn:Em; [|apply Miss].
   destruct (h_busy (p_vals s e)) eqn:Eb; [apply ok_same; exists lb, lf; exact HI|].
-  cbn [orb] in G1. rewrite orb_false_r in G1. apply negb_true_iff in G1.
   destruct HI as (R & M & A & C & Q & T).
   pose proof M as (M1 & M2 & M3).
   destruct (M1 id e Em) as (Ie & c & Hc & Hid). rewrite Hc.
-  destruct (apply_state (p_cur s c) id q p) as [cu|] eqn:Eap; [|exact MissF].
+  destruct (apply_state (p_cur s c) id q p) as [cu|] eqn:Eap; [|apply Miss].
   destruct (apply_state_sim _ _ _ _ _ Eap) as (S1 & S2 & S3 & S4 & S5).
   pose proof (cur_sim_fupd (p_cur s) c cu S1 S2 S3 S4 S5) as CS.
   eexists _, _. split; [reflexivity|]. exists (e :: remove Nat.eq_dec e lb), lf.
@@ -602,13 +542,12 @@ Proof.
   assert (V : vals_cur_eq (p_vals s) (fupd (p_vals s) e v)) by (apply vals_cur_eq_fupd; reflexivity).
   split; [exact R'|]. split; [apply (IM_ext (p_curs s) (p_vals s) _ (p_cur s) _ (p_ncur s) lb); assumption|].
   split.
-  - apply (IA_ext _ _ (fupd (p_vals s) e v) _ (p_cur s) _ _ lb); [intros x; auto|exact CS|exact ME|].
+  - apply (IA_ext _ (fupd (p_vals s) e v) _ (p_cur s) _ _ lb); [intros x; auto|exact CS|exact ME|].
     apply (IA_grab (p_act s) (p_curs s) (p_vals s) (p_cur s) (p_ncur s) lb r e c v A M).
     + rewrite Ea; exact I.
     + exact Ie.
     + exact Hc.
     + exact Eb.
-    + rewrite Hid. apply not_inflight. exact G1.
     + exact Hc.
     + reflexivity.
   - split; [|split].
@@ -636,12 +575,12 @@ Proof.
 Qed.
 
 Lemma IA_newcur act curs vals cur ncur lb r id q qr p ca cu a :
-  IA act curs vals cur ncur lb -> IM curs vals cur ncur lb ->
-  act_get act r = AMiss id q qr p ca -> c_id cu = id -> c_live cu = true ->
+  IA act vals cur ncur lb -> IM curs vals cur ncur lb ->
+  act_get act r = AMiss id q qr p ca -> c_live cu = true ->
   (a = ACreated ncur \/ a = AHold ncur) ->
-  IA (act_set act r a) curs vals (fupd cur ncur cu) (S ncur) lb.
+  IA (act_set act r a) vals (fupd cur ncur cu) (S ncur) lb.
 Proof.
-  intros (A1 & A2 & A3 & A4 & A5 & A6 & A7) (M1 & M2 & M3) Hr0 Hid Hlive Hda.
+  intros (A1 & A2 & A3 & A4 & A7) (M1 & M2 & M3) Hr0 Hlive Hda.
   set (cur' := fupd cur ncur cu).
   assert (Ha : forall r0, r0 <> r -> act_get (act_set act r a) r0 = act_get act r0).
   { intros r0 Ne. rewrite act_get_set. apply Nat.eqb_neq in Ne. rewrite Ne. reflexivity. }
@@ -653,13 +592,7 @@ Proof.
   assert (Old : forall r0 c0, holds act r0 c0 -> c0 < ncur) by (intros r0 c0 H; apply (A1 r0 c0 H)).
   assert (RingOld : forall e, In e lb -> h_cur (vals e) <> Some ncur).
   { intros e I H. destruct (M2 e I) as (c & Hc & Hn & _). rewrite H in Hc. injection Hc as <-. lia. }
-  assert (Cid : c_id (cur' ncur) = id) by (unfold cur'; rewrite fupd_same; exact Hid).
-  assert (NoneId : map_get curs id = None) by (apply (A5 r id q qr p ca Hr0)).
-  assert (AidOld : forall r0, r0 <> r -> aidc cur' (act_get act r0) = aidc cur (act_get act r0)).
-  { intros r0 Ne. destruct (act_get act r0) eqn:E; cbn [aidc]; try reflexivity; unfold cur'; rewrite fupd_other; try reflexivity;
-    [assert (c < ncur) by (apply (Old r0); left; exact E)|assert (c < ncur) by (apply (Old r0); right; exact E)]; lia. }
-  assert (AidNew : aidc cur' a = Some id) by (destruct Hda as [-> | ->]; cbn [aidc]; rewrite Cid; reflexivity).
-  refine (conj _ (conj _ (conj _ (conj _ (conj _ (conj _ _)))))).
+  refine (conj _ (conj _ (conj _ (conj _ _)))).
   - intros r0 c0 H. destruct (Hh _ _ H) as [[-> ->]|[_ H']].
     + split; [lia|]. unfold cur'. rewrite fupd_same. exact Hlive.
     + pose proof (A1 r0 c0 H') as [Hn Hl]. split; [lia|]. unfold cur'. rewrite fupd_other by lia. exact Hl.
@@ -669,25 +602,11 @@ Proof.
     + subst c0. apply Old in H0'. lia.
     + apply (A2 r0 r1 c0 H0' H1').
   - intros r0 c0 H. destruct (Nat.eq_dec r0 r) as [->|Ne].
-    + rewrite Hr in H. destruct Hda as [-> | ->]; [discriminate|]. injection H as <-. right. split; [exact RingOld|rewrite Cid; exact NoneId].
-    + rewrite Ha in H by exact Ne. assert (c0 < ncur) by (apply (Old r0); right; exact H).
-      unfold cur'. rewrite fupd_other by lia. apply (A3 r0 c0 H).
+    + rewrite Hr in H. destruct Hda as [-> | ->]; [discriminate|]. injection H as <-. right. exact RingOld.
+    + rewrite Ha in H by exact Ne. apply (A3 r0 c0 H).
   - intros r0 c0 H. destruct (Nat.eq_dec r0 r) as [->|Ne].
-    + rewrite Hr in H. destruct Hda as [-> | ->]; [|discriminate]. injection H as <-. split; [exact RingOld|rewrite Cid; exact NoneId].
-    + rewrite Ha in H by exact Ne. assert (c0 < ncur) by (apply (Old r0); left; exact H).
-      unfold cur'. rewrite fupd_other by lia. apply (A4 r0 c0 H).
-  - intros r0 id0 q0 qr0 p0 ca0 H. destruct (Nat.eq_dec r0 r) as [->|Ne].
-    + rewrite Hr in H. destruct Hda as [-> | ->]; discriminate.
-    + rewrite Ha in H by exact Ne. apply (A5 r0 _ _ _ _ _ H).
-  - intros r0 r1 i Ne H0 H1.
-    assert (Old6 : forall x, aidc cur (act_get act r) = Some x -> x = id) by (intros x Hx; rewrite Hr0 in Hx; cbn in Hx; congruence).
-    destruct (Nat.eq_dec r0 r) as [->|N0]; destruct (Nat.eq_dec r1 r) as [->|N1].
-    + apply Ne. reflexivity.
-    + rewrite Hr in H0. rewrite Ha, AidOld in H1 by exact N1. rewrite AidNew in H0. injection H0 as <-.
-      apply (A6 r r1 id Ne); [rewrite Hr0; reflexivity|exact H1].
-    + rewrite Hr in H1. rewrite Ha, AidOld in H0 by exact N0. rewrite AidNew in H1. injection H1 as <-.
-      apply (A6 r0 r id Ne); [exact H0|rewrite Hr0; reflexivity].
-    + rewrite Ha, AidOld in H0 by exact N0. rewrite Ha, AidOld in H1 by exact N1. apply (A6 r0 r1 i Ne H0 H1).
+    + rewrite Hr in H. destruct Hda as [-> | ->]; [|discriminate]. injection H as <-. exact RingOld.
+    + rewrite Ha in H by exact Ne. apply (A4 r0 c0 H).
   - intros e c I Hb Hc. destruct (A7 e c I Hb Hc) as [r0 H]. exists r0. rewrite Ha; [exact H|]. intros ->. rewrite H in Hr0. discriminate.
 Qed.
 
@@ -714,12 +633,12 @@ Proof.
   intros (lb & lf & HI). unfold get_create.
   destruct (act_get (p_act s) r) eqn:Ea; try (apply ok_same; exists lb, lf; exact HI).
   destruct qr as [| |parts].
-  - eexists _, _. split; [reflexivity|]. exists lb, lf. apply InvL_nonhold; [rewrite Ea; exact I|exact I| |exact HI]. intros; discriminate.
-  - eexists _, _. split; [reflexivity|]. exists lb, lf. apply InvL_nonhold; [rewrite Ea; exact I|exact I| |exact HI]. intros; discriminate.
+  - eexists _, _. split; [reflexivity|]. exists lb, lf. apply InvL_nonhold; [rewrite Ea; exact I|exact I|exact HI].
+  - eexists _, _. split; [reflexivity|]. exists lb, lf. apply InvL_nonhold; [rewrite Ea; exact I|exact I|exact HI].
   - assert (Bad : ok_inv (Ok (set_actor (set_acq (set_acq s (acq_add (p_acq s) parts 1))
                      (acq_add (p_acq (set_acq s (acq_add (p_acq s) parts 1))) parts (-1))) r AIdle, RNewErr))).
     { eexists _, _. split; [reflexivity|]. exists lb, lf.
-      apply InvL_nonhold; [sproj; rewrite Ea; exact I|exact I|intros; discriminate|].
+      apply InvL_nonhold; [sproj; rewrite Ea; exact I|exact I|].
       destruct HI as (R & M & A & C & Q & T). unfold InvL; sproj. repeat (split; [assumption|]). split; [|exact T].
       intros x. rewrite !cnt_in_acq. rewrite <- (Q x). lia. }
     destruct HI as (R & M & A & C & Q & T).
@@ -765,48 +684,33 @@ Proof.
   - rewrite map_set_len_none by exact Hm. cbn [length]. lia.
 Qed.
 
-Lemma IA_insert act curs vals cur ncur lb r e c v :
-  IA act curs vals cur ncur lb -> IM curs vals cur ncur lb ->
+Lemma IA_insert act vals cur ncur lb r e c v :
+  IA act vals cur ncur lb ->
   act_get act r = ACreated c -> ~ In e lb -> h_cur v = Some c -> h_busy v = true ->
-  IA (act_set act r (AHold c)) (map_set curs (c_id (cur c)) e) (fupd vals e v) cur ncur (e :: lb).
+  IA (act_set act r (AHold c)) (fupd vals e v) cur ncur (e :: lb).
 Proof.
-  intros (A1 & A2 & A3 & A4 & A5 & A6 & A7) M Hr0 Ne Vc Vb.
+  intros (A1 & A2 & A3 & A4 & A7) Hr0 Ne Vc Vb.
   assert (Ha : forall r0, r0 <> r -> act_get (act_set act r (AHold c)) r0 = act_get act r0).
   { intros r0 N0. rewrite act_get_set. apply Nat.eqb_neq in N0. rewrite N0. reflexivity. }
   assert (Hr : act_get (act_set act r (AHold c)) r = AHold c) by (rewrite act_get_set, Nat.eqb_refl; reflexivity).
   assert (Hh : forall r0 c0, holds (act_set act r (AHold c)) r0 c0 <-> holds act r0 c0).
   { intros r0 c0. rewrite holds_set. destruct (Nat.eqb r0 r) eqn:E; [|tauto]. apply Nat.eqb_eq in E. subst r0. unfold holds. rewrite Hr0.
     split; intros [H|H]; try discriminate; injection H as <-; auto. }
-  assert (Aid : forall r0, aidc cur (act_get (act_set act r (AHold c)) r0) = aidc cur (act_get act r0)).
-  { intros r0. destruct (Nat.eq_dec r0 r) as [->|N0]; [rewrite Hr, Hr0; reflexivity|rewrite Ha by exact N0; reflexivity]. }
-  assert (Other : forall r0 i, r0 <> r -> aidc cur (act_get act r0) = Some i -> i <> c_id (cur c)).
-  { intros r0 i N0 H ->. apply (A6 r0 r _ N0 H). rewrite Hr0. reflexivity. }
-  destruct (A4 r c Hr0) as [RingC NoneC].
-  refine (conj _ (conj _ (conj _ (conj _ (conj _ (conj _ _)))))).
+  refine (conj _ (conj _ (conj _ (conj _ _)))).
   - intros r0 c0 H. apply Hh in H. apply (A1 r0 c0 H).
   - intros r0 r1 c0 H0 H1. apply Hh in H0. apply Hh in H1. apply (A2 r0 r1 c0 H0 H1).
   - intros r0 c0 H. destruct (Nat.eq_dec r0 r) as [->|N0].
     + rewrite Hr in H. injection H as <-. left. exists e. rewrite fupd_same. split; [left; reflexivity|auto].
     + rewrite Ha in H by exact N0. assert (Nc : c0 <> c).
       { intros ->. apply N0. apply (A2 r0 r c); [right; exact H|left; exact Hr0]. }
-      destruct (A3 r0 c0 H) as [(e0 & I0 & Hc0 & Hb0)|[Hn Hm]].
+      destruct (A3 r0 c0 H) as [(e0 & I0 & Hc0 & Hb0)|Hn].
       * left. exists e0. rewrite fupd_other by (intros ->; exact (Ne I0)). split; [right; exact I0|auto].
-      * right. split.
-        -- intros e1 [<-|I1]; [rewrite fupd_same, Vc; congruence|rewrite fupd_other by (intros ->; exact (Ne I1)); apply Hn; exact I1].
-        -- rewrite map_get_set. assert (Q : c_id (cur c0) <> c_id (cur c)) by (apply (Other r0 _ N0); rewrite H; reflexivity).
-           apply N.eqb_neq in Q. rewrite Q. exact Hm.
+      * right. intros e1 [<-|I1]; [rewrite fupd_same, Vc; congruence|rewrite fupd_other by (intros ->; exact (Ne I1)); apply Hn; exact I1].
   - intros r0 c0 H. destruct (Nat.eq_dec r0 r) as [->|N0]; [rewrite Hr in H; discriminate|].
     rewrite Ha in H by exact N0. assert (Nc : c0 <> c).
     { intros ->. apply N0. apply (A2 r0 r c); left; assumption. }
-    destruct (A4 r0 c0 H) as [Hn Hm]. split.
-    + intros e1 [<-|I1]; [rewrite fupd_same, Vc; congruence|rewrite fupd_other by (intros ->; exact (Ne I1)); apply Hn; exact I1].
-    + rewrite map_get_set. assert (Q : c_id (cur c0) <> c_id (cur c)) by (apply (Other r0 _ N0); rewrite H; reflexivity).
-      apply N.eqb_neq in Q. rewrite Q. exact Hm.
-  - intros r0 id q qr p ca H. destruct (Nat.eq_dec r0 r) as [->|N0]; [rewrite Hr in H; discriminate|].
-    rewrite Ha in H by exact N0. rewrite map_get_set.
-    assert (Q : id <> c_id (cur c)) by (apply (Other r0 _ N0); rewrite H; reflexivity).
-    apply N.eqb_neq in Q. rewrite Q. apply (A5 r0 _ _ _ _ _ H).
-  - intros r0 r1 i N01 H0 H1. rewrite Aid in H0, H1. apply (A6 r0 r1 i N01 H0 H1).
+    pose proof (A4 r0 c0 H) as Hn.
+    intros e1 [<-|I1]; [rewrite fupd_same, Vc; congruence|rewrite fupd_other by (intros ->; exact (Ne I1)); apply Hn; exact I1].
   - intros e0 c0 [<-|I0] Hb Hc.
     + rewrite fupd_same in Hc. exists r. rewrite Hr. congruence.
     + rewrite fupd_other in Hb, Hc by (intros ->; exact (Ne I0)). destruct (A7 e0 c0 I0 Hb Hc) as [r0 H]. exists r0.
@@ -827,23 +731,7 @@ Qed.
 Lemma IT_cons vals now idle busyto lb e v :
   IT vals now idle busyto lb -> ~ In e lb -> (h_exp v <= now + Z.max idle busyto)%Z -> IT (fupd vals e v) now idle busyto (e :: lb).
 Proof.
-  intros T Ne H e0 [<-|I0]; [rewrite fupd_same; exact H|rewrite fupd_other by (intros ->; exact (Ne I0)); apply T; exact I0].
-Qed.
-
-Lemma inv_insert s r : Inv s -> ok_inv (get_insert s r).
-Proof.
-  intros (lb & lf & HI). unfold get_insert.
-  destruct (act_get (p_act s) r) eqn:Ea; try (apply ok_same; exists lb, lf; exact HI).
-  destruct HI as (R & M & A & C & Q & T).
-  destruct (rs_take_spec _ _ _ R) as (lf' & Tk). destruct (rs_take (p_rs s)) as [e rs1].
-  destruct Tk as (R1 & Sl & Nb & Nf & Lt & _).
-  eexists _, _. split; [reflexivity|]. exists (e :: lb), lf'. unfold InvL; sproj.
-  destruct (rs_push_busy_spec _ _ _ _ R1 Sl Nb Nf Lt) as [R2 _].
-  pose proof A as (A1 & _ & _ & A4 & _). destruct (A1 r c (or_introl Ea)) as [Hn Hl]. destruct (A4 r c Ea) as [_ Hm].
-  split; [exact R2|]. split; [apply IM_insert; try assumption; reflexivity|].
-  split; [apply IA_insert; try assumption; reflexivity|].
-  split; [apply IC_insert; assumption|]. split; [exact Q|].
-  apply IT_cons; [exact T|exact Nb|cbn; lia].
+  intros T Ne H Hm e0 [<-|I0]; [rewrite fupd_same; exact H|rewrite fupd_other by (intros ->; exact (Ne I0)); apply (T Hm); exact I0].
 Qed.
 
 (* ================= use, Release ================= *)
@@ -851,7 +739,7 @@ Lemma InvL_cursim s lb lf cur' : cur_sim (p_cur s) cur' -> InvL s lb lf -> InvL 
 Proof.
   intros S (R & M & A & C & Q & T). unfold InvL; sproj.
   split; [exact R|]. split; [apply (IM_ext _ (p_vals s) _ (p_cur s) _ _ lb); try assumption; [intros x; reflexivity|apply mem_eq_refl|reflexivity]|].
-  split; [apply (IA_ext _ _ (p_vals s) _ (p_cur s) _ _ lb); try assumption; [intros x; auto|apply mem_eq_refl]|].
+  split; [apply (IA_ext _ (p_vals s) _ (p_cur s) _ _ lb); try assumption; [intros x; auto|apply mem_eq_refl]|].
   split; [apply (IC_ext (p_cur s) _ _ _ (p_vals s) _ lb); try assumption; [intros x; reflexivity|apply mem_eq_refl]|].
   split; [apply (IQ_ext _ (p_cur s)); assumption|exact T].
 Qed.
@@ -900,22 +788,17 @@ Qed.
 Lemma cid_close cur c x : c_id (fupd cur c (closed_of (cur c)) x) = c_id (cur x).
 Proof. destruct (Nat.eq_dec x c) as [->|N]; [rewrite fupd_same; reflexivity|rewrite fupd_other by exact N; reflexivity]. Qed.
 
-Lemma aidc_close cur c a : aidc (fupd cur c (closed_of (cur c))) a = aidc cur a.
-Proof. destruct a; cbn [aidc]; rewrite ?cid_close; reflexivity. Qed.
-
-(* IA when the cursor table changes only at a cursor no request holds (ids are kept) *)
-Lemma IA_close act curs vals cur ncur lb c :
-  IA act curs vals cur ncur lb -> (forall r, ~ holds act r c) ->
-  IA act curs vals (fupd cur c (closed_of (cur c))) ncur lb.
+(* IA when the cursor table changes only at a cursor no request holds *)
+Lemma IA_close act vals cur ncur lb c :
+  IA act vals cur ncur lb -> (forall r, ~ holds act r c) ->
+  IA act vals (fupd cur c (closed_of (cur c))) ncur lb.
 Proof.
-  intros (A1 & A2 & A3 & A4 & A5 & A6 & A7) NoH.
-  refine (conj _ (conj _ (conj _ (conj _ (conj _ (conj _ _)))))).
+  intros (A1 & A2 & A3 & A4 & A7) NoH.
+  refine (conj _ (conj _ (conj _ (conj _ _)))).
   - intros r c0 H. rewrite fupd_other by (intros ->; exact (NoH r H)). apply (A1 r c0 H).
   - exact A2.
-  - intros r c0 H. rewrite cid_close. apply (A3 r c0 H).
-  - intros r c0 H. rewrite cid_close. apply (A4 r c0 H).
-  - exact A5.
-  - intros r r' i N H H'. rewrite aidc_close in *. apply (A6 r r' i N H H').
+  - exact A3.
+  - exact A4.
   - exact A7.
 Qed.
 
@@ -966,34 +849,75 @@ Proof.
 Qed.
 
 (* an actor that holds c leaves (c is not in the cache, or stays reachable through it) *)
-Lemma IA_leave act curs vals cur ncur lb r c :
-  IA act curs vals cur ncur lb -> act_get act r = AHold c -> (forall e, In e lb -> h_cur (vals e) <> Some c) ->
-  IA (act_set act r AIdle) curs vals cur ncur lb.
+Lemma IA_leave act vals cur ncur lb r c :
+  IA act vals cur ncur lb -> holds act r c -> (forall e, In e lb -> h_cur (vals e) <> Some c) ->
+  IA (act_set act r AIdle) vals cur ncur lb.
 Proof.
-  intros (A1 & A2 & A3 & A4 & A5 & A6 & A7) Ea1 Hring.
+  intros (A1 & A2 & A3 & A4 & A7) Ea1 Hring.
   assert (Ha : forall r0, r0 <> r -> act_get (act_set act r AIdle) r0 = act_get act r0).
   { intros r0 Ne. rewrite act_get_set. apply Nat.eqb_neq in Ne. rewrite Ne. reflexivity. }
   assert (Hr : act_get (act_set act r AIdle) r = AIdle) by (rewrite act_get_set, Nat.eqb_refl; reflexivity).
   assert (Hh : forall r0 c0, holds (act_set act r AIdle) r0 c0 -> r0 <> r /\ holds act r0 c0).
   { intros r0 c0 H. apply holds_set in H. destruct (Nat.eqb r0 r) eqn:E; [destruct H; discriminate|apply Nat.eqb_neq in E; auto]. }
-  refine (conj _ (conj _ (conj _ (conj _ (conj _ (conj _ _)))))).
+  refine (conj _ (conj _ (conj _ (conj _ _)))).
   - intros r0 c0 H. apply Hh in H. apply (A1 r0 c0 (proj2 H)).
   - intros r0 r1 c0 H0 H1. apply Hh in H0. apply Hh in H1. apply (A2 r0 r1 c0 (proj2 H0) (proj2 H1)).
   - intros r0 c0 H. destruct (Nat.eq_dec r0 r) as [->|Ne]; [rewrite Hr in H; discriminate|]. rewrite Ha in H by exact Ne. apply (A3 r0 c0 H).
   - intros r0 c0 H. destruct (Nat.eq_dec r0 r) as [->|Ne]; [rewrite Hr in H; discriminate|]. rewrite Ha in H by exact Ne. apply (A4 r0 c0 H).
-  - intros r0 id q qr p ca H. destruct (Nat.eq_dec r0 r) as [->|Ne]; [rewrite Hr in H; discriminate|]. rewrite Ha in H by exact Ne. apply (A5 r0 _ _ _ _ _ H).
-  - intros r0 r1 i Ne H0 H1. destruct (Nat.eq_dec r0 r) as [->|N0]; [rewrite Hr in H0; discriminate|].
-    destruct (Nat.eq_dec r1 r) as [->|N1]; [rewrite Hr in H1; discriminate|].
-    rewrite Ha in H0 by exact N0. rewrite Ha in H1 by exact N1. apply (A6 r0 r1 i Ne H0 H1).
   - intros e0 c0 I0 Hb0 Hc0. destruct (A7 e0 c0 I0 Hb0 Hc0) as [r0 H]. exists r0. rewrite Ha; [exact H|].
-    intros ->. rewrite H in Ea1. injection Ea1 as ->. exact (Hring e0 I0 Hc0).
+    intros ->. destruct Ea1 as [Ea1|Ea1]; rewrite H in Ea1; [discriminate|]. injection Ea1 as ->. exact (Hring e0 I0 Hc0).
 Qed.
 
-Lemma inv_release s r : Inv s -> ok_inv (release s r).
+(* the request that holds cursor c (created, not inserted; or handed out and not in the ring any more) closes it and leaves *)
+Lemma close_and_leave s lb lf r c :
+  InvL s lb lf -> holds (p_act s) r c -> (forall e, In e lb -> h_cur (p_vals s e) <> Some c) ->
+  InvL (set_actor (close_cur s c) r AIdle) lb lf.
+Proof.
+  intros (R & M & A & C & Q & T) Hh Hring.
+  pose proof A as (A1 & A2 & _). destruct (A1 r c Hh) as [Hn Hl].
+  rewrite close_cur_eq by exact Hl.
+  assert (NoH : forall r0, ~ holds (act_set (p_act s) r AIdle) r0 c).
+  { intros r0 H. apply holds_set in H. destruct (Nat.eqb r0 r) eqn:E; [destruct H; discriminate|].
+    apply Nat.eqb_neq in E. apply E. apply (A2 r0 r c H Hh). }
+  unfold InvL; sproj.
+  split; [exact R|]. split; [apply IM_close; assumption|].
+  split; [apply IA_close; [apply (IA_leave _ _ _ _ _ r c); assumption|exact NoH]|].
+  split.
+  { apply (IC_close_gen _ _ (p_act s) _ (p_vals s) _ lb); [exact C|exact Hl|].
+    intros c0 Ne _ _ [[r0 H]|H]; [|right; exact H]. left. exists r0. apply holds_set.
+    destruct (Nat.eqb r0 r) eqn:E; [|exact H]. apply Nat.eqb_eq in E. subst r0. exfalso. apply Ne.
+    destruct H as [H|H]; destruct Hh as [H'|H']; rewrite H in H'; try discriminate; injection H' as <-; reflexivity. }
+  split; [apply IQ_close; assumption|exact T].
+Qed.
+
+(* ================= GetOrCreate: the insert step (code_variant: refuses if the id got cached meanwhile) ================= *)
+Lemma inv_insert s r : Inv s -> ok_inv (get_insert true s r).
+Proof.
+  intros (lb & lf & HI). unfold get_insert.
+  destruct (act_get (p_act s) r) eqn:Ea; try (apply ok_same; exists lb, lf; exact HI).
+  destruct (map_get (p_curs s) (c_id (p_cur s c))) as [e0|] eqn:Hm.
+  - (* another request has cached a cursor under the id: this one is closed, the request refused *)
+    eexists _, _. split; [reflexivity|]. exists lb, lf.
+    pose proof HI as (_ & _ & (_ & _ & _ & A4 & _) & _).
+    apply close_and_leave; [exact HI|left; exact Ea|exact (A4 r c Ea)].
+  - destruct HI as (R & M & A & C & Q & T).
+    destruct (rs_take_spec _ _ _ R) as (lf' & Tk). destruct (rs_take (p_rs s)) as [e rs1].
+    destruct Tk as (R1 & Sl & Nb & Nf & Lt & _).
+    eexists _, _. split; [reflexivity|]. exists (e :: lb), lf'. unfold InvL; sproj.
+    destruct (rs_push_busy_spec _ _ _ _ R1 Sl Nb Nf Lt) as [R2 _].
+    pose proof A as (A1 & _). destruct (A1 r c (or_introl Ea)) as [Hn Hl].
+    split; [exact R2|]. split; [apply IM_insert; try assumption; reflexivity|].
+    split; [apply IA_insert; try assumption; reflexivity|].
+    split; [apply IC_insert; assumption|]. split; [exact Q|].
+    apply IT_cons; [exact T|exact Nb|cbn; lia].
+Qed.
+
+(* ================= Release (code_variant: a cache entry that carries another cursor is left alone) ================= *)
+Lemma inv_release s r : Inv s -> ok_inv (release true s r).
 Proof.
   intros (lb & lf & HI). unfold release.
   destruct (act_get (p_act s) r) eqn:Ea; try (apply ok_same; exists lb, lf; exact HI).
-  2:{ eexists _, _. split; [reflexivity|]. exists lb, lf. apply InvL_nonhold; [rewrite Ea; exact I|exact I|intros; discriminate|exact HI]. }
+  2:{ eexists _, _. split; [reflexivity|]. exists lb, lf. apply InvL_nonhold; [rewrite Ea; exact I|exact I|exact HI]. }
   (* the commit only moves the position *)
   pose proof (InvL_cursim s lb lf _ (commit_sim (p_cur s) c) HI) as HI1.
   fold (set_cursor s c (commit (p_cur s c))) in HI1.
@@ -1003,48 +927,45 @@ Proof.
   assert (Cid : c_id (commit (p_cur s c)) = c_id (p_cur s1 c)) by (rewrite Cu; reflexivity).
   assert (Csp : c_spos (commit (p_cur s c)) = c_spos (p_cur s1 c)) by (rewrite Cu; reflexivity).
   rewrite Cid, Csp. clearbody s1. clear HI Ea Cid Csp Cu.
+  assert (Closed : (forall e, In e lb -> h_cur (p_vals s1 e) <> Some c) ->
+            ok_inv (Ok (set_actor (close_cur s1 c) r AIdle, RReleased 0 (c_spos (p_cur s1 c))))).
+  { intros Hring. eexists _, _. split; [reflexivity|]. exists lb, lf. apply close_and_leave; [exact HI1|right; exact Ea1|exact Hring]. }
   destruct HI1 as (R & M & A & C & Q & T).
-  pose proof A as (A1 & A2 & A3 & A4 & A5 & A6 & A7). pose proof M as (M1 & M2 & M3).
-  destruct (A1 r c (or_intror Ea1)) as [Hn Hl].
+  pose proof A as (A1 & A2 & A3 & A4 & A7). pose proof M as (M1 & M2 & M3).
   destruct (map_get (p_curs s1) (c_id (p_cur s1 c))) as [e|] eqn:Em.
-  - (* still cached *)
-    destruct (A3 r c Ea1) as [(e0 & I0 & Hc0 & Hb0)|[_ Hm]]; [|congruence].
-    destruct (M2 e0 I0) as (c1 & Hc1 & _ & _ & Hm1). rewrite Hc0 in Hc1. injection Hc1 as <-.
-    rewrite Em in Hm1. injection Hm1 as ->. rewrite Hb0. cbn [negb].
-    eexists _, _. split; [reflexivity|]. exists (e0 :: remove Nat.eq_dec e0 lb), lf. unfold InvL; sproj.
-    destruct (rs_touch_spec _ _ _ _ R I0) as [R' _].
-    pose proof (mem_eq_touch e0 lb I0) as ME.
-    assert (Len : length (e0 :: remove Nat.eq_dec e0 lb) = length lb).
-    { cbn [length]. destruct R as (R1 & _). rewrite (remove_length_nodup e0 lb (ring_nodup _ _ _ R1) I0). reflexivity. }
-    set (v := {| h_busy := false; h_cur := h_cur (p_vals s1 e0); h_exp := (p_now s1 + p_idle s1)%Z |}).
-    assert (V : vals_cur_eq (p_vals s1) (fupd (p_vals s1) e0 v)) by (apply vals_cur_eq_fupd; reflexivity).
-    split; [exact R'|].
-    split; [apply (IM_ext (p_curs s1) (p_vals s1) _ (p_cur s1) _ (p_ncur s1) lb); try assumption; apply cur_sim_refl|].
-    split.
-    { apply (IA_ext _ _ (fupd (p_vals s1) e0 v) _ (p_cur s1) _ _ lb); [intros x; auto|apply cur_sim_refl|exact ME|].
-      apply (IA_ungrab (p_act s1) (p_curs s1) (p_vals s1) (p_cur s1) (p_ncur s1) lb r e0 c v A M Ea1 I0 Hc0); [exact Hc0|reflexivity]. }
-    split.
-    { apply (IC_ext (p_cur s1) _ _ _ (p_vals s1) _ lb); [exact V|apply cur_sim_refl|exact ME|].
-      apply (IC_ungrab _ _ _ _ _ r e0 c C I0 Hc0). intros c0 [H|H]; rewrite Ea1 in H; [discriminate|injection H as <-; reflexivity]. }
-    split; [exact Q|].
-    apply (IT_ext _ _ _ _ lb); [exact ME|]. apply IT_fupd; [exact T|]. cbn. lia.
+  - destruct (M1 _ _ Em) as (Ie & ce & Hce & _).
+    unfold owned. rewrite Hce. destruct (Nat.eqb ce c) eqn:Eo; cbn [negb].
+    + (* the cache entry is this cursor's: it must be marked busy, it becomes idle *)
+      apply Nat.eqb_eq in Eo. subst ce.
+      destruct (A3 r c Ea1) as [(e0 & I0 & Hc0 & Hb0)|Hn]; [|exfalso; exact (Hn e Ie Hce)].
+      assert (e0 = e) by (apply (IM_inj _ _ _ _ _ _ _ _ M I0 Ie Hc0 Hce)). subst e0.
+      rewrite Hb0. cbn [negb].
+      eexists _, _. split; [reflexivity|]. exists (e :: remove Nat.eq_dec e lb), lf. unfold InvL; sproj.
+      destruct (rs_touch_spec _ _ _ _ R I0) as [R' _].
+      pose proof (mem_eq_touch e lb I0) as ME.
+      assert (Len : length (e :: remove Nat.eq_dec e lb) = length lb).
+      { cbn [length]. destruct R as (R1 & _). rewrite (remove_length_nodup e lb (ring_nodup _ _ _ R1) I0). reflexivity. }
+      set (v := {| h_busy := false; h_cur := h_cur (p_vals s1 e); h_exp := (p_now s1 + p_idle s1)%Z |}).
+      assert (V : vals_cur_eq (p_vals s1) (fupd (p_vals s1) e v)) by (apply vals_cur_eq_fupd; reflexivity).
+      split; [exact R'|].
+      split; [apply (IM_ext (p_curs s1) (p_vals s1) _ (p_cur s1) _ (p_ncur s1) lb); try assumption; apply cur_sim_refl|].
+      split.
+      { apply (IA_ext _ (fupd (p_vals s1) e v) _ (p_cur s1) _ _ lb); [intros x; auto|apply cur_sim_refl|exact ME|].
+        apply (IA_ungrab (p_act s1) (p_curs s1) (p_vals s1) (p_cur s1) (p_ncur s1) lb r e c v A M Ea1 I0 Hc0); [exact Hc0|reflexivity]. }
+      split.
+      { apply (IC_ext (p_cur s1) _ _ _ (p_vals s1) _ lb); [exact V|apply cur_sim_refl|exact ME|].
+        apply (IC_ungrab _ _ _ _ _ r e c C I0 Hc0). intros c0 [H|H]; rewrite Ea1 in H; [discriminate|injection H as <-; reflexivity]. }
+      split; [exact Q|].
+      apply (IT_ext _ _ _ _ lb); [exact ME|]. apply IT_fupd; [exact T|]. cbn. lia.
+    + (* the cache entry under this id belongs to another cursor: this one is in no holder and is closed here *)
+      apply Closed. apply Nat.eqb_neq in Eo.
+      destruct (A3 r c Ea1) as [(e0 & I0 & Hc0 & Hb0)|Hn]; [|exact Hn].
+      exfalso. destruct (M2 e0 I0) as (c1 & Hc1 & _ & _ & Hm1). rewrite Hc0 in Hc1. injection Hc1 as <-.
+      rewrite Em in Hm1. injection Hm1 as ->. rewrite Hce in Hc0. injection Hc0 as ->. apply Eo. reflexivity.
   - (* not cached any more: the cursor is closed here *)
-    destruct (A3 r c Ea1) as [(e0 & I0 & Hc0 & Hb0)|[Hring _]].
-    { destruct (M2 e0 I0) as (c1 & Hc1 & _ & _ & Hm1). rewrite Hc0 in Hc1. injection Hc1 as <-. congruence. }
-    eexists _, _. split; [reflexivity|]. exists lb, lf.
-    rewrite close_cur_eq by exact Hl.
-    assert (NoH : forall r0, ~ holds (act_set (p_act s1) r AIdle) r0 c).
-    { intros r0 H. apply holds_set in H. destruct (Nat.eqb r0 r) eqn:E; [destruct H; discriminate|].
-      apply Nat.eqb_neq in E. apply E. apply (A2 r0 r c H). right. exact Ea1. }
-    unfold InvL; sproj.
-    split; [exact R|]. split; [apply IM_close; assumption|].
-    split; [apply IA_close; [apply (IA_leave _ _ _ _ _ _ r c); assumption|exact NoH]|].
-    split.
-    { apply (IC_close_gen _ _ (p_act s1) _ (p_vals s1) _ lb); [exact C|exact Hl|].
-      intros c0 Ne _ _ [[r0 H]|H]; [|right; exact H]. left. exists r0. apply holds_set.
-      destruct (Nat.eqb r0 r) eqn:E; [|exact H]. apply Nat.eqb_eq in E. subst r0. exfalso. apply Ne.
-      destruct H as [H|H]; rewrite Ea1 in H; [discriminate|injection H as <-; reflexivity]. }
-    split; [apply IQ_close; assumption|exact T].
+    apply Closed.
+    destruct (A3 r c Ea1) as [(e0 & I0 & Hc0 & Hb0)|Hring]; [|exact Hring].
+    destruct (M2 e0 I0) as (c1 & Hc1 & _ & _ & Hm1). rewrite Hc0 in Hc1. injection Hc1 as <-. congruence.
 Qed.
 
 (* ================= the sweeper takes one holder out of the ring ================= *)
@@ -1077,27 +998,23 @@ Proof.
 Qed.
 
 Lemma IA_remove act curs vals cur ncur lb e c :
-  IA act curs vals cur ncur lb -> IM curs vals cur ncur lb -> In e lb -> h_cur (vals e) = Some c ->
-  IA act (map_del curs (c_id (cur c))) (fupd vals e (cleared (vals e))) cur ncur (remove Nat.eq_dec e lb).
+  IA act vals cur ncur lb -> IM curs vals cur ncur lb -> In e lb -> h_cur (vals e) = Some c ->
+  IA act (fupd vals e (cleared (vals e))) cur ncur (remove Nat.eq_dec e lb).
 Proof.
-  intros (A1 & A2 & A3 & A4 & A5 & A6 & A7) M I Hc.
+  intros (A1 & A2 & A3 & A4 & A7) M I Hc.
   pose proof (ring_no_c _ _ _ _ _ _ _ M I Hc) as NoC.
-  assert (Keep : forall k, map_get curs k = None -> map_get (map_del curs (c_id (cur c))) k = None).
-  { intros k H. rewrite map_get_del. destruct (N.eqb k (c_id (cur c))); [reflexivity|exact H]. }
   assert (Ring : forall c0, (forall e0, In e0 lb -> h_cur (vals e0) <> Some c0) ->
                  forall e1, In e1 (remove Nat.eq_dec e lb) -> h_cur (fupd vals e (cleared (vals e)) e1) <> Some c0).
   { intros c0 Hn e1 I1. apply in_remove_iff in I1. destruct I1 as [I1 Ne]. rewrite fupd_other by exact Ne. apply Hn. exact I1. }
-  refine (conj _ (conj _ (conj _ (conj _ (conj _ (conj _ _)))))).
+  refine (conj _ (conj _ (conj _ (conj _ _)))).
   - exact A1.
   - exact A2.
-  - intros r c0 H. destruct (A3 r c0 H) as [(e0 & I0 & Hc0 & Hb0)|[Hn Hm]].
+  - intros r c0 H. destruct (A3 r c0 H) as [(e0 & I0 & Hc0 & Hb0)|Hn].
     + destruct (Nat.eq_dec e0 e) as [->|Ne].
-      * rewrite Hc in Hc0. injection Hc0 as <-. right. split; [exact NoC|]. rewrite map_get_del, N.eqb_refl. reflexivity.
+      * rewrite Hc in Hc0. injection Hc0 as <-. right. exact NoC.
       * left. exists e0. rewrite fupd_other by exact Ne. split; [apply in_remove_iff; auto|auto].
-    + right. split; [apply Ring; exact Hn|apply Keep; exact Hm].
-  - intros r c0 H. destruct (A4 r c0 H) as [Hn Hm]. split; [apply Ring; exact Hn|apply Keep; exact Hm].
-  - intros r id q qr p ca H. apply Keep. apply (A5 r _ _ _ _ _ H).
-  - exact A6.
+    + right. apply Ring; exact Hn.
+  - intros r c0 H. apply Ring. exact (A4 r c0 H).
   - intros e0 c0 I0 Hb0 Hc0. apply in_remove_iff in I0. destruct I0 as [I0 Ne]. rewrite fupd_other in Hb0, Hc0 by exact Ne.
     apply (A7 e0 c0 I0 Hb0 Hc0).
 Qed.
@@ -1105,36 +1022,36 @@ Qed.
 Lemma IT_remove vals now idle busyto lb e v :
   IT vals now idle busyto lb -> IT (fupd vals e v) now idle busyto (remove Nat.eq_dec e lb).
 Proof.
-  intros T e0 I0. apply in_remove_iff in I0. destruct I0 as [I0 Ne]. rewrite fupd_other by exact Ne. apply T. exact I0.
+  intros T Hm e0 I0. apply in_remove_iff in I0. destruct I0 as [I0 Ne]. rewrite fupd_other by exact Ne. apply (T Hm). exact I0.
 Qed.
 
 (* the holder is busy: its cursor is orphaned, the request that uses it will close it *)
 Lemma groups_remove_busy act curs vals cur ncur acq now idle busyto lb e c :
-  IM curs vals cur ncur lb -> IA act curs vals cur ncur lb -> IC cur ncur act vals lb -> IQ acq cur ncur ->
+  IM curs vals cur ncur lb -> IA act vals cur ncur lb -> IC cur ncur act vals lb -> IQ acq cur ncur ->
   IT vals now idle busyto lb -> NoDup lb -> In e lb -> h_cur (vals e) = Some c -> h_busy (vals e) = true ->
   let vals' := fupd vals e (cleared (vals e)) in let lb' := remove Nat.eq_dec e lb in let curs' := map_del curs (c_id (cur c)) in
-  IM curs' vals' cur ncur lb' /\ IA act curs' vals' cur ncur lb' /\ IC cur ncur act vals' lb' /\ IQ acq cur ncur /\
+  IM curs' vals' cur ncur lb' /\ IA act vals' cur ncur lb' /\ IC cur ncur act vals' lb' /\ IQ acq cur ncur /\
   IT vals' now idle busyto lb'.
 Proof.
   intros M A C Q T ND I Hc Hb. cbn zeta.
-  split; [apply IM_remove; assumption|]. split; [apply IA_remove; assumption|].
+  split; [apply IM_remove; assumption|]. split; [apply (IA_remove _ curs _ _ _ _ _ c); assumption|].
   split; [|split; [exact Q|apply IT_remove; exact T]].
   apply (IC_mono _ _ act _ vals _ lb); [|exact C].
   intros c0 _ _ [H|(e0 & I0 & H0)]; [left; exact H|].
   destruct (Nat.eq_dec e0 e) as [->|Ne].
-  - rewrite Hc in H0. injection H0 as <-. destruct A as (_ & _ & _ & _ & _ & _ & A7).
+  - rewrite Hc in H0. injection H0 as <-. destruct A as (_ & _ & _ & _ & A7).
     destruct (A7 e c I Hb Hc) as [r H]. left. exists r. right. exact H.
   - right. exists e0. rewrite fupd_other by exact Ne. split; [apply in_remove_iff; auto|exact H0].
 Qed.
 
 (* the holder is idle: its cursor is closed on the spot *)
 Lemma groups_remove_idle act curs vals cur ncur acq now idle busyto lb e c :
-  IM curs vals cur ncur lb -> IA act curs vals cur ncur lb -> IC cur ncur act vals lb -> IQ acq cur ncur ->
+  IM curs vals cur ncur lb -> IA act vals cur ncur lb -> IC cur ncur act vals lb -> IQ acq cur ncur ->
   IT vals now idle busyto lb -> NoDup lb -> In e lb -> h_cur (vals e) = Some c -> h_busy (vals e) = false ->
   let vals' := fupd vals e (cleared (vals e)) in let lb' := remove Nat.eq_dec e lb in let curs' := map_del curs (c_id (cur c)) in
   let cur' := fupd cur c (closed_of (cur c)) in
   c_live (cur c) = true /\
-  IM curs' vals' cur' ncur lb' /\ IA act curs' vals' cur' ncur lb' /\ IC cur' ncur act vals' lb' /\
+  IM curs' vals' cur' ncur lb' /\ IA act vals' cur' ncur lb' /\ IC cur' ncur act vals' lb' /\
   IQ (acq_add acq (c_parts (cur c)) (-1)) cur' ncur /\ IT vals' now idle busyto lb'.
 Proof.
   intros M A C Q T ND I Hc Hb. cbn zeta.
@@ -1142,12 +1059,12 @@ Proof.
   pose proof (ring_no_c _ _ _ _ _ _ _ M I Hc) as NoC.
   assert (NoH : forall r, ~ holds act r c).
   { pose proof A as (_ & _ & A3 & A4 & _). intros r [H|H].
-    - destruct (A4 r c H) as [Hr _]. apply (Hr e I Hc).
-    - destruct (A3 r c H) as [(e0 & I0 & Hc0 & Hb0)|[Hr _]]; [|apply (Hr e I Hc)].
+    - apply (A4 r c H e I Hc).
+    - destruct (A3 r c H) as [(e0 & I0 & Hc0 & Hb0)|Hr]; [|apply (Hr e I Hc)].
       rewrite (IM_inj _ _ _ _ _ _ _ _ M I0 I Hc0 Hc) in Hb0. congruence. }
   split; [exact Hl|].
   split; [apply IM_close; [apply IM_remove; assumption|exact NoC]|].
-  split; [apply IA_close; [apply IA_remove; assumption|exact NoH]|].
+  split; [apply IA_close; [apply (IA_remove _ curs _ _ _ _ _ c); assumption|exact NoH]|].
   split; [|split; [apply IQ_close; assumption|apply IT_remove; exact T]].
   apply (IC_close_gen _ _ act _ vals _ lb); [exact C|exact Hl|].
   intros c0 Nc _ _ [H|(e0 & I0 & H0)]; [left; exact H|].
@@ -1257,13 +1174,45 @@ Proof.
   apply (inv_sweep_time_loop _ hd s lb lf HI M3). intros _. apply (rs_head_in _ _ _ _ R Eb).
 Qed.
 
+(* ================= Shutdown (code_variant): the cache is evicted with sweepBySize, maxCurs = 0 ================= *)
+Lemma InvL_set_max s m lb lf : InvL s lb lf -> InvL (set_max s m) lb lf.
+Proof. intros H. exact H. Qed.
+
+Lemma close_cur_max s c : p_max (close_cur s c) = p_max s.
+Proof. unfold close_cur. destruct (c_live (p_cur s c)); reflexivity. Qed.
+
+(* sweepBySize stops only when the cache is within its bound; it does not touch the bound or the requests *)
+Lemma sweep_size_post fuel : forall s s', sweep_size_loop fuel s = Ok s' ->
+  length (p_curs s') <= p_max s' /\ p_max s' = p_max s.
+Proof.
+  induction fuel as [|f IH]; intros s s'; cbn [sweep_size_loop];
+  destruct (Nat.leb (length (p_curs s)) (p_max s)) eqn:E;
+  try (intros H; injection H as <-; apply Nat.leb_le in E; auto); try discriminate.
+  destruct (r_busy (p_rs s)); [|discriminate].
+  destruct (h_cur (p_vals s (cl_prev_of (r_links (p_rs s)) n))) as [c|]; [|discriminate].
+  intros H. destruct (IH _ _ H) as [H1 H2]. split; [exact H1|]. rewrite H2. sproj.
+  destruct (h_busy (p_vals s (cl_prev_of (r_links (p_rs s)) n))); [reflexivity|apply close_cur_max].
+Qed.
+
+Lemma inv_shutdown s : Inv s -> exists s', shutdown true s = Ok s' /\ Inv s' /\ p_curs s' = [].
+Proof.
+  intros (lb & lf & HI). unfold shutdown.
+  destruct (inv_sweep_size (set_max s 0)) as (s1 & E & lb1 & lf1 & HI1); [exists lb, lf; apply InvL_set_max; exact HI|].
+  rewrite E. exists (set_max s1 (p_max s)). split; [reflexivity|]. split; [exists lb1, lf1; apply InvL_set_max; exact HI1|].
+  unfold sweep_size in E. destruct (sweep_size_post _ _ _ E) as [H1 H2]. rewrite H2 in H1. cbn in H1.
+  cbn. destruct (p_curs s1); [reflexivity|cbn in H1; lia].
+Qed.
+
 (* ================= every step of every actor preserves the invariant ================= *)
 Lemma lift_ok o : ok_inv1 o -> ok_inv (lift o).
 Proof. intros (s' & -> & H). exists s', RDone. auto. Qed.
 
-Lemma inv_step s o : Inv s -> guard s o = true -> ok_inv (step s o).
+(* the only demand on a step: with `mono`, the clock does not go backwards *)
+Definition tick_ok (o : op) : Prop := mono = true -> match o with OTick d => (0 <= d)%Z | _ => True end.
+
+Lemma inv_step s o : Inv s -> tick_ok o -> ok_inv (step code_variant s o).
 Proof.
-  intros HI G. destruct o; cbn [step].
+  intros HI G. destruct o; cbn [step code_variant v_owner v_evict].
   - apply inv_lookup; assumption.
   - apply inv_create; assumption.
   - apply inv_insert; assumption.
@@ -1272,18 +1221,37 @@ Proof.
   - apply lift_ok. apply inv_sweep_size; assumption.
   - apply lift_ok. apply inv_sweep_time; assumption.
   - eexists _, _. split; [reflexivity|]. destruct HI as (lb & lf & R & M & A & C & Q & T). exists lb, lf.
-    unfold InvL; sproj. repeat (split; [assumption|]). intros e I. specialize (T e I). cbn [guard] in G. apply Z.leb_le in G. lia.
-  - apply ok_same. exact HI.
+    unfold InvL; sproj. repeat (split; [assumption|]). intros Hm e I. specialize (T Hm e I). specialize (G Hm). cbn in G. lia.
+  - apply lift_ok. destruct (inv_shutdown s HI) as (s' & E & HI' & _). exists s'. auto.
 Qed.
 
-Lemma inv_run ops : forall s, Inv s -> disciplined s ops = true ->
-  snd (run s ops) = Ok tt /\ Inv (fst (fst (run s ops))) /\ length (snd (fst (run s ops))) = length ops.
+Definition ticks_ok (ops : list op) : Prop := mono = true -> clock_monotone ops = true.
+
+Lemma inv_run ops : forall s, Inv s -> ticks_ok ops ->
+  snd (run code_variant s ops) = Ok tt /\ Inv (fst (fst (run code_variant s ops))) /\
+  length (snd (fst (run code_variant s ops))) = length ops.
 Proof.
-  induction ops as [|o ops IH]; intros s HI D; cbn [run disciplined] in *.
+  induction ops as [|o ops IH]; intros s HI D; cbn [run] in *.
   - cbn. auto.
-  - apply andb_true_iff in D. destruct D as [G D].
+  - assert (G : tick_ok o).
+    { intros Hm. specialize (D Hm). cbn [clock_monotone forallb] in D. apply andb_true_iff in D. destruct D as [D _].
+      destruct o; try exact Logic.I. apply Z.leb_le. exact D. }
+    assert (D' : ticks_ok ops).
+    { intros Hm. specialize (D Hm). cbn [clock_monotone forallb] in D. apply andb_true_iff in D. apply D. }
     destruct (inv_step s o HI G) as (s' & r & E & HI'). rewrite E in *.
-    destruct (IH s' HI' D) as (H1 & H2 & H3). destruct (run s' ops) as [[sf rs] oc]. cbn in *. auto.
+    destruct (IH s' HI' D') as (H1 & H2 & H3). destruct (run code_variant s' ops) as [[sf rs] oc]. cbn in *. auto.
+Qed.
+
+(* the state after one more step *)
+Lemma run_snoc v ops o : forall s, snd (run v s ops) = Ok tt ->
+  fst (fst (run v s (ops ++ [o]))) =
+  match step v (fst (fst (run v s ops))) o with Ok (s', _) => s' | _ => fst (fst (run v s ops)) end.
+Proof.
+  induction ops as [|o0 ops IH]; intros s H; cbn [run app] in *.
+  - cbn [fst snd]. destruct (step v s o) as [[s' r]| | |]; reflexivity.
+  - destruct (step v s o0) as [[s' r]| | |]; try discriminate H.
+    specialize (IH s'). destruct (run v s' ops) as [[sf rs] oc]. cbn in H. specialize (IH H).
+    destruct (run v s' (ops ++ [o])) as [[sf' rs'] oc']. cbn in *. exact IH.
 Qed.
 
 (* ================= consequences ================= *)
@@ -1323,14 +1291,19 @@ Proof.
   intros (lb & lf & _ & _ & (_ & A2 & _) & _) r r' c H H'. apply (A2 r r' c); unfold holds; tauto.
 Qed.
 
-(* a cursor in use that is still in the cache is marked busy there: the next request for its id is refused *)
-Lemma inv_held_busy s : Inv s -> forall r c e, act_get (p_act s) r = AHold c ->
-  map_get (p_curs s) (c_id (p_cur s c)) = Some e -> h_busy (p_vals s e) = true /\ h_cur (p_vals s e) = Some c.
+(* a cursor in the hands of a request is never idle in the cache: a cache entry that carries it is marked busy
+   (so every further request for its id is refused, refuse_busy); the entry under its id may also carry another
+   cursor (this one was not cached, or was dropped by the sweeper while busy), which Release then leaves alone *)
+Lemma inv_held_busy s : Inv s -> forall r c k e, holds (p_act s) r c ->
+  map_get (p_curs s) k = Some e -> h_cur (p_vals s e) = Some c ->
+  act_get (p_act s) r = AHold c /\ h_busy (p_vals s e) = true /\ k = c_id (p_cur s c).
 Proof.
-  intros (lb & lf & _ & (M1 & M2 & _) & (_ & _ & A3 & _) & _) r c e H Hm.
-  destruct (A3 r c H) as [(e0 & I0 & Hc0 & Hb0)|[_ Hn]]; [|congruence].
-  destruct (M2 e0 I0) as (c' & Hc' & _ & _ & Hm'). rewrite Hc0 in Hc'. injection Hc' as <-.
-  rewrite Hm in Hm'. injection Hm' as ->. auto.
+  intros (lb & lf & _ & M & (_ & _ & A3 & A4 & _) & _) r c k e H Hm Hc.
+  pose proof M as (M1 & M2 & _). destruct (M1 k e Hm) as (Ie & c' & Hc' & Hk). rewrite Hc in Hc'. injection Hc' as <-.
+  destruct H as [H|H]; [exfalso; exact (A4 r c H e Ie Hc)|].
+  split; [exact H|]. split; [|symmetry; exact Hk].
+  destruct (A3 r c H) as [(e0 & I0 & Hc0 & Hb0)|Hn]; [|exfalso; exact (Hn e Ie Hc)].
+  rewrite <- (IM_inj _ _ _ _ _ _ _ _ M I0 Ie Hc0 Hc). exact Hb0.
 Qed.
 
 Lemma inv_acq s : Inv s -> forall p, p_acq s p = live_sum (p_cur s) (p_ncur s) p.
@@ -1493,11 +1466,17 @@ Proof.
 Qed.
 
 (* after the clock has passed every time-out everything cached has expired *)
-Lemma inv_all_expired s d : Inv s -> (Z.max (p_idle s) (p_busyto s) < d)%Z ->
+Lemma inv_all_expired s d : mono = true -> Inv s -> (Z.max (p_idle s) (p_busyto s) < d)%Z ->
   forall k e, map_get (p_curs s) k = Some e -> (h_exp (p_vals s e) < p_now s + d)%Z.
 Proof.
-  intros (lb & lf & _ & (M1 & _) & _ & _ & _ & T) Hd k e Hk. destruct (M1 k e Hk) as [I0 _]. specialize (T e I0). lia.
+  intros Hm (lb & lf & _ & (M1 & _) & _ & _ & _ & T) Hd k e Hk. destruct (M1 k e Hk) as [I0 _]. specialize (T Hm e I0). lia.
 Qed.
+
+End Clock.
+
+(* every state the code reaches, whatever the clients and the clock do *)
+Lemma inv_reach max idle busyto ops : Inv false (fst (fst (run code_variant (init max idle busyto) ops))).
+Proof. apply (inv_run false ops _ (inv_init false max idle busyto)). intros H; discriminate H. Qed.
 
 (* ================= unconditionally (any history, any schedule): partitions are never released twice ================= *)
 Definition Jc (cur : nat -> cursor) : Prop :=
@@ -1538,7 +1517,7 @@ Proof.
   - destruct (negb (h_busy (p_vals s (cl_prev_of (r_links (p_rs s)) e0)))); [intros H; injection H as <-; exact J|apply IH; exact J].
 Qed.
 
-Lemma Jc_step s o s' r : Jc (p_cur s) -> step s o = Ok (s', r) -> Jc (p_cur s').
+Lemma Jc_step v s o s' r : Jc (p_cur s) -> step v s o = Ok (s', r) -> Jc (p_cur s').
 Proof.
   intros J. destruct o; cbn [step].
   - unfold get_lookup. destruct (act_get (p_act s) r0); try (intros H; injection H as <- _; exact J).
@@ -1553,29 +1532,35 @@ Proof.
     destruct qr; try (intros H; injection H as <- _; exact J).
     destruct p; intros H; injection H as <- _; sproj; try exact J; (apply Jc_fupd; [exact J|cbn; split; [reflexivity|lia]]).
   - unfold get_insert. destruct (act_get (p_act s) r0); try (intros H; injection H as <- _; exact J).
-    destruct (rs_take (p_rs s)). intros H; injection H as <- _. exact J.
+    destruct (if v_owner v then map_get (p_curs s) (c_id (p_cur s c)) else None).
+    + intros H; injection H as <- _. sproj. apply Jc_close. exact J.
+    + destruct (rs_take (p_rs s)). intros H; injection H as <- _. exact J.
   - unfold use. destruct (act_get (p_act s) r0); try (intros H; injection H as <- _; exact J).
     intros H; injection H as <- _. sproj. apply Jc_pos. exact J.
   - unfold release. destruct (act_get (p_act s) r0); try (intros H; injection H as <- _; exact J).
     set (s1 := set_cursor s c (commit (p_cur s c))).
     assert (J1 : Jc (p_cur s1)) by (unfold s1, commit; sproj; apply Jc_pos; exact J).
-    destruct (map_get (p_curs s1) (c_id (commit (p_cur s c)))).
-    + destruct (negb (h_busy (p_vals s1 n))); [discriminate|]. intros H; injection H as <- _. exact J1.
-    + intros H; injection H as <- _. sproj. apply Jc_close. exact J1.
+    assert (Cl : forall x, Ok (set_actor (close_cur s1 c) r0 AIdle, x) = Ok (s', r) -> Jc (p_cur s')).
+    { intros x H; injection H as <- _. sproj. apply Jc_close. exact J1. }
+    destruct (map_get (p_curs s1) (c_id (commit (p_cur s c)))); [|apply Cl].
+    destruct (negb (owned (v_owner v) s1 c n)); [apply Cl|].
+    destruct (negb (h_busy (p_vals s1 n))); [discriminate|]. intros H; injection H as <- _. exact J1.
   - unfold lift, sweep_size. destruct (sweep_size_loop (S (r_nelem (p_rs s))) s) eqn:E; try discriminate.
     intros H; injection H as <- _. apply (Jc_sweep_size _ _ _ J E).
   - unfold lift, sweep_time. destruct (r_busy (p_rs s)); [|intros H; injection H as <- _; exact J].
     destruct (sweep_time_loop (length (p_curs s)) n s) eqn:E; try discriminate.
     intros H; injection H as <- _. apply (Jc_sweep_time _ _ _ _ J E).
   - intros H; injection H as <- _. exact J.
-  - intros H; injection H as <- _. exact J.
+  - unfold lift, shutdown. destruct (v_evict v); [|intros H; injection H as <- _; exact J].
+    unfold sweep_size. destruct (sweep_size_loop (S (r_nelem (p_rs (set_max s 0)))) (set_max s 0)) eqn:E; try discriminate.
+    intros H; injection H as <- _. sproj. apply (Jc_sweep_size _ (set_max s 0) _ J E).
 Qed.
 
-Lemma Jc_run ops : forall s, Jc (p_cur s) -> Jc (p_cur (fst (fst (run s ops)))).
+Lemma Jc_run v ops : forall s, Jc (p_cur s) -> Jc (p_cur (fst (fst (run v s ops)))).
 Proof.
   induction ops as [|o ops IH]; intros s J; cbn [run]; [exact J|].
-  destruct (step s o) as [[s' r]| | |] eqn:E; try exact J.
-  specialize (IH s' (Jc_step _ _ _ _ J E)). destruct (run s' ops) as [[sf rs] oc]. exact IH.
+  destruct (step v s o) as [[s' r]| | |] eqn:E; try exact J.
+  specialize (IH s' (Jc_step _ _ _ _ _ J E)). destruct (run v s' ops) as [[sf rs] oc]. exact IH.
 Qed.
 
 Lemma Jc_init max idle busyto : Jc (p_cur (init max idle busyto)).
